@@ -11,7 +11,8 @@ package main
 //   frag    : the peer hands out at most <frag> bytes per Read (0 = everything it has)
 //   reuse   : what happens to the ONE Request object before the script of this exchange is applied
 //             fresh (a new object) | reset (Request.Reset) | pool (ReleaseRequest + AcquireRequest) | keep (nothing)
-//   script  : the request script tokens of `reqwrite` (M U Q QP DPN H HA B BS CC CK …)
+//   script  : the request script tokens of `reqwrite` (M U Q QP DPN H HA B BS CC CK …); SB = the application sets
+//             resp.SkipBody before the call
 //   response: the bytes the peer writes when it has received the complete request of this exchange; close=1: it
 //             then closes the connection (silently: later writes are swallowed, reads see EOF)
 //
@@ -257,6 +258,11 @@ func opC11Seq(a []string) []string {
 			}
 			resp = protocol.AcquireResponse()
 		}
+		for _, t := range script {
+			if t == "SB" {
+				resp.SkipBody = true
+			}
+		}
 		err := c.Do(context.Background(), req, resp)
 		var body []byte
 		if err == nil {
@@ -447,7 +453,7 @@ func genC11Seq(rng *Rng, n int) {
 			}
 			url := "http://" + auth + path + query
 			sc := []string{h2("M", m), h2("U", url)}
-			if rng.Intn(8) == 0 && path != "" { // (empty path with DPN: known finding dpn-empty-path-target, directed cases only)
+			if rng.Intn(8) == 0 {
 				sc = append(sc, "DPN")
 			}
 			switch rng.Intn(6) {
@@ -479,10 +485,6 @@ func genC11Seq(rng *Rng, n int) {
 				sc = append(sc, prevB)
 			case m == "GET" || m == "HEAD" || m == "DELETE" || rng.Intn(6) == 0:
 				sc = append(sc, "B:-")
-			case m == "PUT" && rng.Intn(3) != 0:
-				// (an idempotent method with a body stream: known finding stream-body-lost-on-retry when the pooled
-				// connection turns out to be closed; kept rare so that those lines do not crowd out the rest)
-				sc = append(sc, "B:"+hx(genBodyBytes(rng, size)))
 			case rng.Intn(3) == 0:
 				_, ps := genPieces(rng, size)
 				sc = append(sc, "B:-", "BS:"+strconv.Itoa(size)+":"+ps)
@@ -495,6 +497,9 @@ func genC11Seq(rng *Rng, n int) {
 			prevM, prevB = m, sc[len(sc)-1]
 			if !strings.HasPrefix(prevB, "B") || bodyAt >= len(sc) {
 				panic("c11seq generator: body token")
+			}
+			if rng.Intn(15) == 0 { // the application does not want the body (drawn after the body token: prevB stays the last B token)
+				sc = append(sc, "SB")
 			}
 			resp, cl := c11SeqResponse(rng, m == "HEAD", maxBody)
 			if rng.Intn(8) == 0 {
